@@ -44,7 +44,7 @@ func (g G) U(n int, label string) int {
 }
 
 // Bool is true with probability pct/100.
-func (g G) Bool(pct int, label string) bool { return g.U(100, label) < pct }
+func (g G) Bool(pct int, label string) bool { return g.U(100, label) >= 100-pct } // shrinks towards false
 
 // Pick chooses uniformly.
 func Pick[T any](g G, xs []T, label string) T { return xs[g.U(len(xs), label)] }
